@@ -42,7 +42,7 @@ PHASE_OP = {"checkPos": "checkPos", "checkVel": "checkVel", "forward": "forward"
 
 # six models: text, injection index per site, integrator (0 Euler: phase-wise replay possible), constrained?
 MODELS = [
-    dict(name="free+slide/Euler", euler=True, constrained=False,
+    dict(name="free+slide/Euler", euler=True, constrained=False, layout="none",
          idx={"qpos": 7, "qvel": 2, "act": 0, "ctrl": 1, "qfrc": 6, "xfrc": 8},
          text="""option timestep=0.125 gravity=0,0,-1 integrator=0
 body name=b1 pos=0,0,1
@@ -53,7 +53,7 @@ joint body=b2 name=j2 type=2 axis=0,0,1
 geom body=b2 name=g2 type=2 size=0.1,0,0 mass=1 contype=0 conaffinity=0
 actuator name=a1 trntype=0 target=j2 dyntype=1 gainprm=1
 actuator name=a2 trntype=0 target=j2"""),
-    dict(name="hinge-chain/RK4", euler=False, constrained=False,
+    dict(name="hinge-chain/RK4", euler=False, constrained=False, layout="none",
          idx={"qpos": 1, "qvel": 0, "act": 0, "ctrl": 0, "qfrc": 1, "xfrc": 14},
          text="""option timestep=0.0625 gravity=0,0,-1 integrator=1
 body name=b1 pos=0,0,1
@@ -64,7 +64,7 @@ joint body=b2 name=j2 type=3 axis=0,1,0
 geom body=b2 name=g2 type=2 size=0.1,0,0 pos=0.5,0,0 mass=1 contype=0 conaffinity=0
 actuator name=a1 trntype=0 target=j1 dyntype=2 dynprm=0.5 gainprm=1
 actuator name=a2 trntype=0 target=j2"""),
-    dict(name="ball+slide/implicit", euler=False, constrained=False,
+    dict(name="ball+slide/implicit", euler=False, constrained=False, layout="none",
          idx={"qpos": 2, "qvel": 3, "act": 0, "ctrl": 0, "qfrc": 0, "xfrc": 9},
          text="""option timestep=0.125 gravity=0,0,-1 integrator=2
 body name=b1 pos=0,0,1
@@ -75,7 +75,7 @@ joint body=b2 name=j2 type=2 axis=1,0,0 damping=0.5 stiffness=1
 geom body=b2 name=g2 type=2 size=0.1,0,0 mass=2 contype=0 conaffinity=0
 actuator name=a1 trntype=0 target=j2 dyntype=1 gainprm=2
 actuator name=a2 trntype=0 target=j1 gear=0,1,0"""),
-    dict(name="slide/implicitfast", euler=False, constrained=False,
+    dict(name="slide/implicitfast", euler=False, constrained=False, layout="none",
          idx={"qpos": 0, "qvel": 1, "act": 1, "ctrl": 0, "qfrc": 1, "xfrc": 8},
          text="""option timestep=0.25 gravity=0,0,0 integrator=3
 body name=b1 pos=0,0,1
@@ -84,7 +84,7 @@ joint body=b1 name=j2 type=2 axis=1,0,0
 geom body=b1 name=g1 type=2 size=0.1,0,0 mass=1 contype=0 conaffinity=0
 actuator name=a1 trntype=0 target=j1 dyntype=1 gainprm=1
 actuator name=a2 trntype=0 target=j2 dyntype=2 dynprm=1 gainprm=1"""),
-    dict(name="sphere-on-plane/Euler", euler=True, constrained=True,
+    dict(name="sphere-on-plane/Euler", euler=True, constrained=True, layout="none",
          idx={"qpos": 2, "qvel": 0, "act": 0, "ctrl": 0, "qfrc": 2, "xfrc": 6},
          text="""option timestep=0.03125 gravity=0,0,-1 integrator=0
 geom name=floor type=0 size=5,5,0.1
@@ -95,7 +95,7 @@ body name=b2 pos=1,0,1
 joint body=b2 name=j2 type=2 axis=0,0,1 limited=1 range=-0.01,0.5
 geom body=b2 name=g2 type=2 size=0.1,0,0 mass=1 contype=0 conaffinity=0
 actuator name=a1 trntype=0 target=j2 dyntype=1 gainprm=1"""),
-    dict(name="free+ball/RK4", euler=False, constrained=False,
+    dict(name="free+ball/RK4", euler=False, constrained=False, layout="none",
          idx={"qpos": 4, "qvel": 7, "act": 0, "ctrl": 0, "qfrc": 8, "xfrc": 15},
          text="""option timestep=0.125 gravity=0,0,-1 integrator=1
 body name=b1 pos=0,0,1
@@ -107,6 +107,50 @@ geom body=b2 name=g2 type=6 size=0.1,0.2,0.3 pos=0.3,0,0 mass=1 contype=0 conaff
 actuator name=a1 trntype=0 target=j2 gear=0,0,1 dyntype=1 gainprm=1"""),
 ]
 MAXSTEPS = 3
+SLEEP_ENABLE = 1 << 4           # mjENBL_SLEEP
+SLEEP_INIT, SLEEP_NEVER = 5, 3  # mjSLEEP_INIT, mjSLEEP_NEVER
+
+
+def sleep_model(kind, layout):
+    """two kinematic trees, one initialised asleep (the "sleeper"), one that never sleeps (the "awake" tree); in
+    layout "first" the sleeper has the lower dof indices, in "last" the higher ones"""
+    if kind == "free":
+        trees = {"sleeper": dict(nq=7, nv=6, joints=["type=0"], geom="type=2 size=0.1,0,0 mass=1",
+                                 loc={"qpos": 2, "qvel": 2, "qfrc": 2, "xfrc": 2}),
+                 "awake": dict(nq=7, nv=6, joints=["type=0"], geom="type=2 size=0.1,0,0 mass=1",
+                               loc={"qpos": 1, "qvel": 4, "qfrc": 0, "xfrc": 4})}
+        opt = "option timestep=0.125 gravity=0,0,-1 integrator=0 enableflags=%d" % SLEEP_ENABLE
+        euler = True
+    else:
+        trees = {"sleeper": dict(nq=2, nv=2, joints=["type=2 axis=0,0,1", "type=3 axis=0,1,0 damping=0.5"],
+                                 geom="type=6 size=0.1,0.2,0.3 pos=0.2,0,0 mass=1",
+                                 loc={"qpos": 0, "qvel": 1, "qfrc": 0, "xfrc": 2}),
+                 "awake": dict(nq=4, nv=3, joints=["type=1 damping=0.25"], geom="type=6 size=0.1,0.2,0.3 pos=0.2,0,0 mass=1",
+                               loc={"qpos": 2, "qvel": 1, "qfrc": 0, "xfrc": 3})}
+        opt = "option timestep=0.0625 gravity=0,0,-1 integrator=3 enableflags=%d" % SLEEP_ENABLE
+        euler = False
+    order = ["sleeper", "awake"] if layout == "first" else ["awake", "sleeper"]
+    text = [opt]
+    idx = {}
+    qoff = voff = 0
+    for k, t in enumerate(order):
+        tr = trees[t]
+        text.append("body name=%s pos=%d,0,1 sleep=%d" % (t, 2 * k, SLEEP_INIT if t == "sleeper" else SLEEP_NEVER))
+        for j, jt in enumerate(tr["joints"]):
+            text.append("joint body=%s name=%s_j%d %s" % (t, t, j, jt))
+        text.append("geom body=%s name=%s_g %s contype=0 conaffinity=0" % (t, t, tr["geom"]))
+        idx[t] = {"qpos": qoff + tr["loc"]["qpos"], "qvel": voff + tr["loc"]["qvel"], "qfrc": voff + tr["loc"]["qfrc"],
+                  "xfrc": 6 * (k + 1) + tr["loc"]["xfrc"]}
+        qoff += tr["nq"]
+        voff += tr["nv"]
+    return dict(name="sleep-%s/%s/%s" % (layout, kind, "Euler" if euler else "implicitfast"), euler=euler,
+                constrained=False, layout=layout, idx=idx, text="\n".join(text), nv=voff,
+                nv_sleeper=trees["sleeper"]["nv"])
+
+
+for _layout in ("first", "last"):
+    for _kind in ("free", "mixed"):
+        MODELS.append(sleep_model(_kind, _layout))
 
 
 def harness():
@@ -137,7 +181,10 @@ def finite_line(line):
 
 
 def applicable(model, hist):
-    """constrained models do not receive 'huge' in force / activation arrays"""
+    """a behaviour is replayed on the models of its sleep layout; constrained models do not receive 'huge' in force /
+    activation arrays"""
+    if hist[0]["layout"] != model["layout"]:
+        return False
     if not model["constrained"]:
         return True
     return not any(e["op"] == "inject" and e["cls"] == "huge" and e["site"] in ("qfrc", "xfrc", "act") for e in hist)
@@ -154,13 +201,22 @@ def script(mi, model, hist, phased):
         for w in WORDER:
             L.append("dscalar %d warning%d" % (d, WARN[w]))
 
+    sleepy = model["layout"] != "none"
     for e in hist:
         op = e["op"]
+        if op == "init":
+            continue
         if op == "inject":
-            L.append("set %d %s %d %s" % (d, FIELD[e["site"]], model["idx"][e["site"]], value(e["site"], e["cls"])))
+            ix = model["idx"][e["tgt"]][e["site"]] if sleepy else model["idx"][e["site"]]
+            L.append("set %d %s %d %s" % (d, FIELD[e["site"]], ix, value(e["site"], e["cls"])))
         elif op == "setauto":
             L.append("optset %d disableflags %d" % (m, 0 if e["on"] else AUTORESET_BIT))
         elif op == "begin":
+            if sleepy:
+                # which degrees of freedom are awake when the step starts (checked against the specification)
+                marks.append((len(L), "awake", e["asleep"]))
+                L.append("dscalar %d nv_awake" % d)
+                L.append("get %d dof_awake_ind" % d)
             counters("c0", None)
         elif op in PHASE_OP:
             if phased:
@@ -185,6 +241,8 @@ def judge(out, marks, base):
     c0 = None
     for (pos, tag, payload) in marks:
         p = base + pos
+        if tag == "awake":
+            continue
         if tag in ("c0", "rel"):
             if p + 4 > len(out):
                 return "crash", "harness died", p
@@ -222,56 +280,106 @@ def judge(out, marks, base):
     return None
 
 
+def awake_guard(model, out, marks, base):
+    """the sleep state the specification assumes at the start of every step must be the real one (else the model
+    of the sleep filter is wrong: machinery, not a verdict); returns True if a step started with a sleeping tree
+    in front of the awake degrees of freedom (dof_awake_ind[j] != j)"""
+    indirect = False
+    for (pos, tag, asleep) in marks:
+        if tag != "awake":
+            continue
+        p = base + pos
+        if p + 2 > len(out):
+            return indirect
+        try:
+            nva = int(float(out[p]))
+            ind = [int(float(x)) for x in out[p + 1].split()[1:]]
+        except ValueError:
+            return indirect
+        want = model["nv"] - model["nv_sleeper"] if asleep == "yes" else model["nv"] if asleep == "no" else None
+        if want is not None and nva != want:
+            raise Machinery("model %s: specification says the sleeper is asleep=%s at the start of a step, but "
+                            "nv_awake = %d of %d" % (model["name"], asleep, nva, model["nv"]))
+        if asleep == "yes" and nva > 0 and ind[0] != 0:
+            indirect = True
+    return indirect
+
+
 def feature(hist):
-    inj = sorted(set("%s=%s" % (e["site"], e["cls"]) for e in hist if e["op"] == "inject"))
+    inj = sorted(set("%s%s=%s" % ("" if e["tgt"] == "awake" else "sleeper.", e["site"], e["cls"])
+                     for e in hist if e["op"] == "inject"))
     off = any(e["op"] == "setauto" and not e["on"] for e in hist)
     return "+".join(inj) or "none", off
 
 
 def run(ctx):
+    import time
+    t0 = time.time()
     exe = harness()
     ctx.assume("six models without sleeping (free, ball, slide and hinge joints; Euler, RK4, implicit, implicitfast; one "
                "with a contact and a joint limit); injected forces and activations act on a degree of freedom, "
                "controls are not range-limited",
+               "four models with sleeping enabled: a tree initialised asleep placed before or after a tree that never "
+               "sleeps (two free bodies / Euler; slide+hinge body and ball-joint body / implicitfast), no actuators; "
+               "values are injected into qpos, qvel, qfrc_applied, xfrc_applied of either tree",
+               "a bad velocity written into a tree that is asleep is hidden from mj_checkVel by the sleep filter: the "
+               "specification claims finiteness under autoreset but not which counter moves",
                "value classes: 0.5 (in range), 1e11 / 1e300 (beyond mjMAXVAL), NaN, +Inf, -Inf; exactly mjMAXVAL is "
                "not used",
                "warning counters are compared as relations to their value at the start of the step",
                "without autoreset nothing is claimed about finiteness once a bad value was allowed to propagate")
     gc = ("-XX:ParallelGCThreads=2",)
-    nsim = 100 if ctx.quick else 12000
+    nsim = 60 if ctx.quick else 12000
+    mc_cfg = "Blowup_MCQ.cfg" if ctx.quick else "Blowup_MC.cfg"
+    two_cfg = "Blowup_TwoQ.cfg" if ctx.quick else "Blowup_Two.cfg"
+    one_cfg = "Blowup_OneQ.cfg" if ctx.quick else "Blowup_One.cfg"
 
     def terminal(blk):
         return ("hist", "nsteps") if 'phase = "idle"' in blk and 'op |-> "step"' in blk else None
 
     jobs = {
-        "mc": lambda: tlc.run(SPEC, os.path.join(TLA, "Blowup_MC.cfg"), coverage=True, timeout=900, workers=6,
+        "mc": lambda: tlc.run(SPEC, os.path.join(TLA, mc_cfg), coverage=True, timeout=900, workers=6,
                               java_opts=gc),
-        "one": lambda: tladump.run_dump(SPEC, os.path.join(TLA, "Blowup_One.cfg"), timeout=900, workers=4,
+        "one": lambda: tladump.run_dump(SPEC, os.path.join(TLA, one_cfg), timeout=900, workers=4,
                                         select=terminal, java_opts=gc),
-        "two": lambda: tladump.run_dump(SPEC, os.path.join(TLA, "Blowup_Two.cfg"), timeout=900, workers=4,
+        "two": lambda: tladump.run_dump(SPEC, os.path.join(TLA, two_cfg), timeout=900, workers=4,
                                         select=terminal, java_opts=gc),
         "sim": lambda: tladump.simulate(SPEC, os.path.join(TLA, "Blowup_Sim.cfg"), num=nsim, depth=40,
                                         seed=ctx.seed + 1, timeout=1500,
                                         select=lambda act, blk: ("hist", "nsteps") if act == "Integrate" else None,
                                         java_opts=gc),
         "neg1": lambda: tlc.run(SPEC, os.path.join(TLA, "Blowup_Neg1.cfg"), timeout=600, workers=2, java_opts=gc),
-        "neg2": lambda: tlc.run(SPEC, os.path.join(TLA, "Blowup_Neg2.cfg"), timeout=600, workers=2, java_opts=gc),
+        "neg3": lambda: tlc.run(SPEC, os.path.join(TLA, "Blowup_Neg3.cfg"), timeout=600, workers=2, java_opts=gc),
     }
+    if not ctx.quick:
+        for k in ("neg2", "neg4"):
+            jobs[k] = (lambda k=k: tlc.run(SPEC, os.path.join(TLA, "Blowup_N%s.cfg" % k[1:]), timeout=600, workers=2,
+                                           java_opts=gc))
     with cf.ThreadPoolExecutor(len(jobs)) as ex:
         futs = {k: ex.submit(f) for k, f in jobs.items()}
         out = {k: f.result() for k, f in futs.items()}
-    ctx.tlc_ok(out["mc"], "Blowup_MC", need_actions=["Inject", "SetAuto", "Begin", "CheckPos", "CheckVel", "Forward",
+    tladump.timing("tlc jobs", t0)
+    for k in out:
+        r_ = out[k][0] if isinstance(out[k], tuple) else out[k]
+        tladump.timing("  " + k, time.time() - r_.wall)
+    ctx.tlc_ok(out["mc"], mc_cfg[:-4], need_actions=["Inject", "SetAuto", "Begin", "CheckPos", "CheckVel", "Forward",
                                                     "CheckAcc", "Integrate"])
     behs = []
     try:
         for k, want_steps in (("one", 1), ("two", 2)):
             res, states, cleanup = out[k]
-            ctx.tlc_ok(res, "Blowup_" + k)
+            ctx.tlc_ok(res, (two_cfg if k == "two" else one_cfg)[:-4])
             for st in states():
                 if st["nsteps"] == want_steps:
-                    if k == "two" and ctx.quick and zlib.crc32(repr(st["hist"]).encode()) % 4:
-                        continue                      # quick tier: a fixed quarter of the two-step behaviours
-                    behs.append((k, st["hist"]))
+                    h = st["hist"]
+                    if ctx.quick:
+                        # quick tier (four / two value classes): a fixed half of the two-step behaviours, a fixed third
+                        # of the one-step behaviours with two injections in the sleep layouts
+                        c = zlib.crc32(repr(h).encode())
+                        ninj = sum(1 for e in h if e["op"] == "inject")
+                        if (k == "two" and c % 2) or (k == "one" and ninj == 2 and h[0]["layout"] != "none" and c % 3):
+                            continue
+                    behs.append((k, h))
     finally:
         out["one"][2]()
         out["two"][2]()
@@ -282,7 +390,12 @@ def run(ctx):
             behs.append(("sim", b[-1][1]["hist"]))      # the last completed step carries the whole history
     for k, what, props in (("neg1", "a fired check does not reset", ("Contained", "AutoresetFinite", "NothingLeft",
                                                                      "DetectedCounted")),
-                           ("neg2", "mj_checkVel is skipped", ("BadVelDetected",))):
+                           ("neg2", "mj_checkVel is skipped", ("BadVelDetected",)),
+                           ("neg3", "the checks look at the wrong dofs when a sleeping tree precedes the awake one",
+                            ("BadVelDetected", "AwakeAccDetected", "SleeperAccDetected", "AutoresetFinite")),
+                           ("neg4", "a touched sleeping tree is not woken", ("TouchWakes", "SleeperAccDetected"))):
+        if k not in out:
+            continue
         r = out[k]
         ctx.cov["tlc_runs"].append({"name": "Blowup_" + k, "generated": r.generated, "distinct": r.distinct,
                                     "depth": r.depth, "wall_s": round(r.wall, 2), "violation": r.violation})
@@ -301,6 +414,8 @@ def run(ctx):
     behs = sorted(uniq, key=lambda b: (b[0], repr(b[1])))       # the dump order depends on TLC's worker threads
     if len(behs) < 100:
         raise Machinery("only %d behaviours to replay" % len(behs))
+
+    tladump.timing("behaviours collected (%d)" % len(behs), t0)
 
     def replay_model(mi):
         model = MODELS[mi - 1]
@@ -324,7 +439,11 @@ def run(ctx):
 
     with cf.ThreadPoolExecutor(len(MODELS)) as ex:
         results = list(ex.map(replay_model, range(1, len(MODELS) + 1)))
+    tladump.timing("harness runs done", t0)
     ctrl_done = False
+    # vacuity guard of the sleep filter: behaviours in which a velocity / acceleration check of the specification
+    # fired while a sleeping tree preceded the awake degrees of freedom, confirmed on the real dof_awake_ind
+    indirect_fired = {"checkVel": 0, "checkAcc": 0}
     for mi, (nset, index, r) in enumerate(results, 1):
         model = MODELS[mi - 1]
         got = r.lines
@@ -344,6 +463,12 @@ def run(ctx):
                        for (p, t, pl) in marks]
                 ctx.control("perturbed expected counter relation is flagged", judge(got, bad, base) is not None)
                 ctrl_done = True
+            if model["layout"] != "none":
+                really_indirect = awake_guard(model, got, marks, base)
+                if really_indirect and model["layout"] == "first":
+                    for e in h:
+                        if e["op"] in indirect_fired and e["fired"] and e["indirect"]:
+                            indirect_fired[e["op"]] += 1
             v = judge(got, marks, base)
             if v is None:
                 ctx.trace_ok()
@@ -363,10 +488,16 @@ def run(ctx):
                            "hist": [tlc.to_py(e) for e in h], "nsetup": nset})
     if not ctrl_done:
         raise Machinery("no behaviour with a reset was replayed: negative control impossible")
+    for op, n in indirect_fired.items():
+        if n == 0:
+            raise Machinery("vacuity: no replayed behaviour in which %s fired for an awake degree of freedom that "
+                            "follows a sleeping tree (dof_awake_ind[j] != j)" % op)
+    ctx.cov["sleep_filter_scenarios"] = dict(indirect_fired)
     ctx.cov["exhaustive"] = True
     ctx.cov["rule"] = ("behaviours = all one-step histories with <= 2 injections (6 arrays x 5 classes) x autoreset on/off, "
                        "all two-step histories with <= 1 injection per step, %d simulated three-step histories; each "
-                       "replayed on 6 models through mj_step and on the 2 Euler models also phase by phase; after each "
+                       "replayed on the models of its sleep layout (6 without sleeping, 2 + 2 with a sleeping tree first / last) through "
+                       "mj_step and on the Euler models also phase by phase; after each "
                        "step (phase) 4 warning counters, finiteness of qpos/qvel/act/time and equality with the reference "
                        "instance are compared; non-trivial = at least one bad value injected; distinct = (model, mode, "
                        "history)" % len(sims))
